@@ -311,14 +311,15 @@ def run(ctx):
     shutil.rmtree(logdir, ignore_errors=True)
     ctx.cov["server_log_bytes_written"] = log_bytes
     sess_bad = []
-    for job, r in zip(jobs, res):
-        if r.get("ok"):
-            continue
-        # no alarms from timing: must reproduce in three fresh processes
+    failing = sorted([(job, r) for job, r in zip(jobs, res) if not r.get("ok")], key=lambda x: len(x[0][0]))
+    # no alarms from timing: must reproduce in three fresh processes; at most six failing sessions are confirmed (each
+    # confirmation costs up to two minutes when the server is mute), the others are counted
+    for job, r in failing[:6]:
         again = [session(exe, job[0], job[1], job[2], timeout=40.0, raw_edits=(job[5] if len(job) > 5 else ()),
                          server_args=(job[6] if len(job) > 6 else ())) for _ in range(3)]
         if all(not a.get("ok") for a in again):
             sess_bad.append((job, again[0]))
+    ctx.cov["binary_sessions_failing_first_run"] = len(failing)
     known_sess = 0
     for job, r in sorted(sess_bad, key=lambda x: len(x[0][0]))[:]:
         # a silent server after an edit can be the known weakness of the incremental parser: either update itself panics
